@@ -13,6 +13,7 @@ def cases_for(ctx):
     rep = [("Chrome-133", [], 1), ("Chrome-133", ["ccert", "alps", "sku"], 1), ("Chrome-133", ["hrr"], 1),
            ("Firefox-120", ["sku"], 1), ("Firefox-120", ["v12"], 1), ("Chrome-100_PSK", ["psk"], 1), ("Chrome-58", ["v12"], 1),
            ("Safari-16.0", ["ccert"], 3)]     # zlib; SH and EE of this parrot add nothing new: start at the (compressed) certificate
+    lite = set()   # thorough: inserted messages / extensions only in the representative cases and in every parrot's plain case
     if ctx.quick:
         rnd = random.Random(ctx.seed)
         extra = rnd.choice([i for i in ids if i not in {p for p, f, k in rep}])
@@ -25,12 +26,14 @@ def cases_for(ctx):
             for fl in ([], ["hrr", "sku"], ["v12"], ["ccert", "alps", "creq"]):
                 if (i, tuple(fl)) not in have:
                     sel.append((i, fl, 1))
+                    if fl:
+                        lite.add((i, tuple(fl)))
             # every further algorithm the parrot advertises: the compressed certificate (and what follows) once more
             for a in range(1, min(3, nalg.get(i, 0))):
                 sel.append((i, ["ccert", "calg%d" % a], 3))
             if "PSK" in i:
                 sel.append((i, ["psk"], 1))
-    out = [{"name": "%s[%s]" % (p, "+".join(f)), "parrot": p, "flags": f, "from": k} for p, f, k in sel]
+    out = [{"name": "%s[%s]" % (p, "+".join(f)), "parrot": p, "flags": f, "from": k, "lite": (p, tuple(f)) in lite} for p, f, k in sel]
     # post-handshake phase (server sequences x client->server transport x Read/Write/Close) on TLS 1.3 cases
     for c in out:
         if c["flags"] == [] and (c["parrot"] in ("Chrome-133", "Firefox-120") or not ctx.quick):
